@@ -184,7 +184,7 @@ def misgrid(tier):
             for method in ("PUT", "GET"):
                 for szx in (0, 2):
                     size = 1 << (szx + 4)
-                    for nb in (4, 5) if tier == "quick" else (2, 3, 4, 5, 6):
+                    for nb in (2, 4, 5) if tier == "quick" else (2, 3, 4, 5, 6):
                         for tail in (0, 3):
                             L = size * (nb - 1) + (tail or size)
                             l1 = L if method == "PUT" else 0
